@@ -112,6 +112,19 @@ func netlinkCasesCmd(args []string) int {
 	skipped := []string{}
 	trace := 8000000
 
+	// A netlink socket of each protocol is held open for the whole run: it takes the port id that equals the
+	// process id, so every client below gets a port id of the kernel's choosing (as the second socket of a
+	// process does) and "the port id on the wire is the socket's" is not satisfied by the process id.
+	for _, proto := range []int{syscall.NETLINK_ROUTE, syscall.NETLINK_USERSOCK} {
+		if hfd, err := syscall.Socket(syscall.AF_NETLINK, syscall.SOCK_RAW|syscall.SOCK_CLOEXEC, proto); err == nil {
+			if err := syscall.Bind(hfd, &syscall.SockaddrNetlink{Family: syscall.AF_NETLINK}); err != nil {
+				syscall.Close(hfd)
+			} else {
+				defer syscall.Close(hfd)
+			}
+		}
+	}
+
 	// ---- framing: the kernel's verbatim echo on NETLINK_ROUTE -----------------------------
 	cap := &capture{}
 	c, port, err := newClientWithPort(syscall.NETLINK_ROUTE, 0, cap)
@@ -151,7 +164,11 @@ func netlinkCasesCmd(args []string) int {
 					rec := map[string]interface{}{"k": "send", "g": 0, "type": t, "flags": fl, "pid_in": limbs(pidIn),
 						"payload": bytesOf(payload), "ret": "ok", "ret_seq": limbs(seq), "port": limbs(port)}
 					if err != nil {
-						rec["ret"] = "err"
+						// nothing reached the kernel, nothing will come back: the failed Send is the observation
+						rec["ret"], rec["full"], rec["echo"], rec["echo_ret"], rec["echo_type"], rec["echo_data"] = "err", false, []int{}, "none", 0, []int{}
+						w.write(rec)
+						stats["send_cases"]++
+						continue
 					}
 					ret, typ, data, raw := receiveEcho(c, cap)
 					if ret == "none" {
@@ -209,7 +226,11 @@ func netlinkCasesCmd(args []string) int {
 				rec := map[string]interface{}{"k": "send", "g": 0, "type": 0x7ff0, "flags": 5, "pid_in": limbs(0),
 					"payload": bytesOf(payload), "ret": "ok", "ret_seq": limbs(seq), "port": limbs(bport), "full": true, "spare": spare}
 				if err != nil {
-					rec["ret"] = "err"
+					rec["ret"], rec["echo"], rec["echo_ret"], rec["echo_type"], rec["echo_data"] = "err", []int{}, "none", 0, []int{}
+					w.write(rec)
+					stats["exact_buffer_cases"]++
+					cb.Close()
+					continue
 				}
 				ret, typ, data, raw := receiveEcho(cb, capB)
 				if ret == "none" {
